@@ -159,6 +159,246 @@ func cfgString(c txcache.ConfigSourceMe) string {
 	return fmt.Sprintf("{chunks %d, eviction %v, bytes %d, bytesPerSender %d, count %d, countPerSender %d, sendersToEvict %d}", c.NumChunks, c.EvictionEnabled, c.NumBytesThreshold, c.NumBytesPerSenderThreshold, c.CountThreshold, c.CountPerSenderThreshold, c.NumSendersToPreemptivelyEvict)
 }
 
+const sweepListKey = "sweep-list-not-cleared-after-sweep"
+
+// seqRun is one sequential history: the real cache, the previous quiescent snapshot and the bookkeeping
+type seqRun struct {
+	r                            *vk.Run
+	c                            *vk.Case
+	cfg                          txcache.ConfigSourceMe
+	cache                        *txcache.TxCache
+	prev                         txcache.VerifSnapshotData
+	trace                        []string
+	events                       map[string]bool
+	added                        []txkit.TxSpec
+	held                         bool // the harness holds the sweeping mutex: the asynchronous sweep of the last selection is delayed
+	step                         int
+	knownReported, sweepReported bool
+}
+
+func (q *seqRun) report(f finding, snap txcache.VerifSnapshotData) {
+	tr := q.trace
+	if len(tr) > 300 {
+		tr = tr[len(tr)-300:]
+	}
+	var lists []string
+	for _, s := range snap.Senders {
+		lists = append(lists, fmt.Sprintf("s%d (%d bytes) %s", txkit.SenderIndex(s.Sender), s.TotalBytes, describeList(s.Txs)))
+	}
+	sort.Strings(lists)
+	q.r.Violation(q.c.Idx, f.key, f.what, map[string]interface{}{"config": cfgString(q.cfg), "trace_tail": tr, "lists": lists, "hash_index_size": len(snap.ByHash), "sweep_pending": snap.SweepPending})
+}
+
+// check is the oracle applied after every operation. kind: 0 add 1 remove 2 select 3 notify. It returns false when
+// the history must stop (a violation other than the known one was reported).
+func (q *seqRun) check(kind int, addedSender int, inserted bool) bool {
+	r := q.r
+	var snap txcache.VerifSnapshotData
+	if q.held {
+		// the sweep of the last selection is being delayed by the harness: the state is quiescent, the collected
+		// senders are legitimately still listed
+		snap = q.cache.VerifSnapshot()
+	} else {
+		var cleared bool
+		snap, cleared = txkit.Quiesce(q.cache)
+		if !cleared && !q.sweepReported {
+			q.sweepReported = true
+			q.report(finding{sweepListKey, fmt.Sprintf("%d senders are still listed for sweeping after a sweep has completed (no selection running): a later sweep will act on stale lists", snap.SweepPending)}, snap)
+		}
+	}
+	r.Eval(1)
+	fs, _, _ := walk(q.cache, snap, true)
+	evictedBySenderLimit := 0
+	if addedSender >= 0 && inserted {
+		// "after each addition": only when this AddTx really inserted the transaction (a refused duplicate is no addition)
+		if view, here := txkit.SenderView(snap, addedSender); here {
+			before, _ := txkit.SenderView(q.prev, addedSender)
+			evictedBySenderLimit = len(before.Txs) + 1 - len(view.Txs)
+			if len(view.Txs) == 1 {
+				evictedBySenderLimit = 0 // alone in its list (possibly after a capacity eviction of the sender): nothing to classify
+			}
+			fs = append(fs, limits(view, q.cfg, evictedBySenderLimit)...)
+			if evictedBySenderLimit == 1 {
+				r.Count("adds_where_one_sender_eviction_sufficed_or_happened", 1)
+			}
+		}
+	}
+	for _, f := range fs {
+		if f.key == knownSingleEviction {
+			// known behaviour: report once per case and keep checking the other invariants of this history
+			if !q.knownReported {
+				q.report(f, snap)
+				q.knownReported = true
+			}
+			q.events["byte-limit-left-exceeded"] = true
+			continue
+		}
+		q.report(f, snap)
+		return false
+	}
+	// events for the shape signature
+	switch {
+	case kind == 0:
+		if inserted && evictedBySenderLimit > 0 {
+			q.events["sender-limit-eviction"] = true
+			r.Count("sender_limit_evictions", evictedBySenderLimit)
+		}
+		gone := 0
+		for _, s := range q.prev.Senders {
+			if _, here := txkit.SenderView(snap, txkit.SenderIndex(s.Sender)); !here {
+				gone++
+			}
+		}
+		if gone > 0 {
+			q.events["cache-eviction"] = true
+			r.Count("senders_evicted_by_capacity", gone)
+		}
+	case kind == 2 && len(snap.Senders) < len(q.prev.Senders):
+		q.events["sweep"] = true
+		r.Count("senders_swept", len(q.prev.Senders)-len(snap.Senders))
+	case kind == 1 && len(snap.Senders) < len(q.prev.Senders):
+		q.events["remove-last-of-sender"] = true
+		r.Count("senders_removed_with_last_tx", 1)
+	}
+	for _, s := range snap.Senders {
+		for i := 1; i < len(s.Txs); i++ {
+			if s.Txs[i].Nonce == s.Txs[i-1].Nonce {
+				q.events["equal-nonces"] = true
+			}
+		}
+	}
+	r.Max("max_txs_in_pool", int64(len(snap.ByHash)))
+	q.prev = snap
+	return true
+}
+
+func (q *seqRun) add(spec txkit.TxSpec, dup bool) bool {
+	ok, add := q.cache.AddTx(spec.Wrap())
+	q.added = append(q.added, spec)
+	q.trace = append(q.trace, fmt.Sprintf("%d AddTx(%s) -> %v,%v", q.step, spec.Hash(), ok, add))
+	q.r.Count("op_add", 1)
+	if dup && !add {
+		q.events["duplicate-add"] = true
+		q.r.Count("duplicate_adds_refused", 1)
+	}
+	return q.check(0, spec.Sender, add)
+}
+
+func (q *seqRun) remove(hash string) bool {
+	res := q.cache.RemoveTxByHash([]byte(hash))
+	q.trace = append(q.trace, fmt.Sprintf("%d RemoveTxByHash(%s) -> %v", q.step, hash, res))
+	q.r.Count("op_remove", 1)
+	if res {
+		q.r.Count("removes_found", 1)
+	}
+	return q.check(1, -1, false)
+}
+
+func (q *seqRun) notify(s int, n uint64) bool {
+	q.cache.NotifyAccountNonce(txkit.SenderAddr(s), n)
+	q.trace = append(q.trace, fmt.Sprintf("%d NotifyAccountNonce(s%d,%d)", q.step, s, n))
+	q.r.Count("op_notify", 1)
+	return q.check(3, -1, false)
+}
+
+// selectTxs runs a selection. hold=true: right after it returned the harness takes the sweeping mutex, so that the
+// sweep started asynchronously by the selection is delayed until release() (a legal schedule of that goroutine;
+// if the goroutine was faster the sweep has already happened). No selection may be made while the mutex is held.
+func (q *seqRun) selectTxs(n, b int, hold bool) bool {
+	res := q.cache.SelectTransactions(n, b)
+	if hold {
+		q.cache.VerifLockSweep()
+		q.held = true
+	}
+	q.trace = append(q.trace, fmt.Sprintf("%d SelectTransactions(%d,%d) -> %d txs (sweep delayed: %v)", q.step, n, b, len(res), hold))
+	q.r.Count("op_select", 1)
+	return q.check(2, -1, false)
+}
+
+func (q *seqRun) release() bool {
+	if !q.held {
+		return true
+	}
+	q.held = false
+	q.cache.VerifUnlockSweep()
+	q.trace = append(q.trace, fmt.Sprintf("%d (delayed sweep runs now)", q.step))
+	return q.check(2, -1, false)
+}
+
+// gapScenario drives one sender through the life cycle that ends in a sweep: initial nonce gap, three failed
+// selections (the third collects it for sweeping), and - with the sweep delayed - removal of all its transactions by
+// hash before the sweep runs, so that the sweep finds nothing to do; afterwards the same sender comes back with new
+// transactions and further selections (and their sweeps) follow.
+func (q *seqRun) gapScenario(rng *vk.Rand, nSenders int, uniform int64) bool {
+	s := rng.Intn(nSenders)
+	view, here := txkit.SenderView(q.prev, s)
+	if !here || view.Txs[0].Nonce == 0 {
+		// (re)start the sender with transactions above nonce 0
+		if here {
+			for _, t := range view.Txs {
+				if !q.remove(t.Hash) {
+					return false
+				}
+			}
+		}
+		for i, n := 0, rng.Range(1, 2); i < n; i++ {
+			spec := genSpec(rng, s, q.cfg, uniform)
+			spec.Nonce = uint64(rng.Range(1, 6))
+			if !q.add(spec, false) {
+				return false
+			}
+		}
+		view, here = txkit.SenderView(q.prev, s)
+		if !here {
+			return true // evicted right away by the capacity eviction: nothing to drive
+		}
+	}
+	if !q.notify(s, view.Txs[0].Nonce-1) {
+		return false
+	}
+	delayed := rng.Chance(3, 4)
+	for i := 0; i < 3; i++ {
+		if !q.selectTxs(100, []int{1, 2, 10}[rng.Intn(3)], i == 2 && delayed) {
+			return false
+		}
+	}
+	q.r.Count("gap_scenarios", 1)
+	if q.held {
+		if q.prev.SweepPending > 0 {
+			q.r.Count("gap_scenarios_with_sweep_delayed_while_senders_listed", 1)
+			q.events["delayed-sweep"] = true
+		}
+		// remove the collected sender's transactions before its sweep runs (never add while the sweep is delayed:
+		// re-creating a collected sender before its sweep is a concurrent interleaving the code does not handle)
+		if view, here = txkit.SenderView(q.prev, s); here && rng.Chance(4, 5) {
+			for _, t := range view.Txs {
+				if !q.remove(t.Hash) {
+					return false
+				}
+			}
+			if q.prev.SweepPending > 0 {
+				q.r.Count("gap_scenarios_sender_removed_before_its_sweep", 1)
+				q.events["removed-before-sweep"] = true
+			}
+		}
+		if !q.release() {
+			return false
+		}
+	}
+	// the sender comes back
+	for i, n := 0, rng.Range(1, 3); i < n; i++ {
+		if !q.add(genSpec(rng, s, q.cfg, uniform), false) {
+			return false
+		}
+	}
+	for i, n := 0, rng.Range(1, 2); i < n; i++ {
+		if !q.selectTxs([]int{3, 100}[rng.Intn(2)], 2, false) {
+			return false
+		}
+	}
+	return true
+}
+
 func sequentialCase(r *vk.Run, c *vk.Case, nOps int) {
 	rng := c.Rng
 	cfg := genConfig(rng, rng.Chance(2, 3))
@@ -172,140 +412,62 @@ func sequentialCase(r *vk.Run, c *vk.Case, nOps int) {
 	if rng.Chance(1, 3) {
 		uniform = int64(50 * rng.Range(3, 9)) // 150..450 bytes, same for every transaction of the case
 	}
-	var added []txkit.TxSpec
-	var trace []string
-	events := map[string]bool{}
-	knownReported := false
-	report := func(f finding, snap txcache.VerifSnapshotData) {
-		tr := trace
-		if len(tr) > 300 {
-			tr = tr[len(tr)-300:]
+	q := &seqRun{r: r, c: c, cfg: cfg, cache: cache, events: map[string]bool{}}
+	defer func() {
+		if q.held { // never leave the mutex held (the asynchronous goroutine would block forever)
+			q.held = false
+			cache.VerifUnlockSweep()
 		}
-		var lists []string
-		for _, s := range snap.Senders {
-			lists = append(lists, fmt.Sprintf("s%d (%d bytes) %s", txkit.SenderIndex(s.Sender), s.TotalBytes, describeList(s.Txs)))
-		}
-		sort.Strings(lists)
-		r.Violation(c.Idx, f.key, f.what, map[string]interface{}{"config": cfgString(cfg), "trace_tail": tr, "lists": lists, "hash_index_size": len(snap.ByHash)})
+	}()
+	q.prev, _ = txkit.Quiesce(cache)
+	scenarioAt := -1
+	if rng.Chance(1, 2) {
+		scenarioAt = rng.Intn(nOps)
 	}
-	prev, _ := txkit.Quiesce(cache)
-	for step := 0; step < nOps; step++ {
+	for q.step = 0; q.step < nOps; q.step++ {
+		if q.step == scenarioAt {
+			if !q.release() || !q.gapScenario(rng, nSenders, uniform) {
+				return
+			}
+			q.step += 8
+			continue
+		}
 		p := rng.Intn(100)
-		addedSender := -1
-		inserted := false
+		ok := true
 		switch {
-		case p < 55:
+		case p < 55 && !q.held:
 			spec := genSpec(rng, rng.Intn(nSenders), cfg, uniform)
 			dup := false
-			if len(added) > 0 && rng.Chance(1, 10) {
-				spec = added[rng.Intn(len(added))]
+			if len(q.added) > 0 && rng.Chance(1, 10) {
+				spec = q.added[rng.Intn(len(q.added))]
 				dup = true
 			}
-			ok, add := cache.AddTx(spec.Wrap())
-			added = append(added, spec)
-			addedSender = spec.Sender
-			inserted = add
-			trace = append(trace, fmt.Sprintf("%d AddTx(%s) -> %v,%v", step, spec.Hash(), ok, add))
-			r.Count("op_add", 1)
-			if dup && !add {
-				events["duplicate-add"] = true
-				r.Count("duplicate_adds_refused", 1)
-			}
-		case p < 70:
-			if len(added) == 0 {
+			ok = q.add(spec, dup)
+		case p < 70 || (p < 55 && q.held):
+			if len(q.added) == 0 {
 				continue
 			}
-			spec := added[rng.Intn(len(added))]
-			res := cache.RemoveTxByHash([]byte(spec.Hash()))
-			trace = append(trace, fmt.Sprintf("%d RemoveTxByHash(%s) -> %v", step, spec.Hash(), res))
-			r.Count("op_remove", 1)
-			if res {
-				r.Count("removes_found", 1)
-			}
+			ok = q.remove(q.added[rng.Intn(len(q.added))].Hash())
+		case p < 85 && !q.held:
+			ok = q.selectTxs([]int{1, 3, 10, 100}[rng.Intn(4)], []int{1, 2, 10}[rng.Intn(3)], rng.Chance(1, 4))
 		case p < 85:
-			n, b := []int{1, 3, 10, 100}[rng.Intn(4)], []int{1, 2, 10}[rng.Intn(3)]
-			res := cache.SelectTransactions(n, b)
-			trace = append(trace, fmt.Sprintf("%d SelectTransactions(%d,%d) -> %d txs", step, n, b, len(res)))
-			r.Count("op_select", 1)
+			ok = q.release()
 		default:
-			s, n := rng.Intn(nSenders), uint64(rng.Intn(13))
-			cache.NotifyAccountNonce(txkit.SenderAddr(s), n)
-			trace = append(trace, fmt.Sprintf("%d NotifyAccountNonce(s%d,%d)", step, s, n))
-			r.Count("op_notify", 1)
+			ok = q.notify(rng.Intn(nSenders), uint64(rng.Intn(13)))
 		}
-		snap, ok := txkit.Quiesce(cache)
 		if !ok {
-			r.Inconclusive("asynchronous sweep did not finish")
 			return
 		}
-		r.Eval(1)
-		fs, _, _ := walk(cache, snap, true)
-		evictedBySenderLimit := 0
-		if addedSender >= 0 && inserted {
-			// "after each addition": only when this AddTx really inserted the transaction (a refused duplicate is no addition)
-			if view, here := txkit.SenderView(snap, addedSender); here {
-				before, _ := txkit.SenderView(prev, addedSender)
-				evictedBySenderLimit = len(before.Txs) + 1 - len(view.Txs)
-				if len(view.Txs) == 1 {
-					evictedBySenderLimit = 0 // alone in its list (possibly after a capacity eviction of the sender): nothing to classify
-				}
-				fs = append(fs, limits(view, cfg, evictedBySenderLimit)...)
-				if evictedBySenderLimit == 1 {
-					r.Count("adds_where_one_sender_eviction_sufficed_or_happened", 1)
-				}
+		if q.held && rng.Chance(1, 3) {
+			if !q.release() {
+				return
 			}
 		}
-		stop := false
-		for _, f := range fs {
-			if f.key == knownSingleEviction {
-				// known behaviour: report once per case and keep checking the other invariants of this history
-				if !knownReported {
-					report(f, snap)
-					knownReported = true
-				}
-				events["byte-limit-left-exceeded"] = true
-				continue
-			}
-			report(f, snap)
-			stop = true
-			break
-		}
-		if stop {
-			return
-		}
-		// events for the shape signature
-		if addedSender >= 0 {
-			if inserted && evictedBySenderLimit > 0 {
-				events["sender-limit-eviction"] = true
-				r.Count("sender_limit_evictions", evictedBySenderLimit)
-			}
-			gone := 0
-			for _, s := range prev.Senders {
-				if _, here := txkit.SenderView(snap, txkit.SenderIndex(s.Sender)); !here {
-					gone++
-				}
-			}
-			if gone > 0 {
-				events["cache-eviction"] = true
-				r.Count("senders_evicted_by_capacity", gone)
-			}
-		} else if p >= 70 && p < 85 && len(snap.Senders) < len(prev.Senders) {
-			events["sweep"] = true
-			r.Count("senders_swept", len(prev.Senders)-len(snap.Senders))
-		} else if p >= 55 && p < 70 && len(snap.Senders) < len(prev.Senders) {
-			events["remove-last-of-sender"] = true
-			r.Count("senders_removed_with_last_tx", 1)
-		}
-		for _, s := range snap.Senders {
-			for i := 1; i < len(s.Txs); i++ {
-				if s.Txs[i].Nonce == s.Txs[i-1].Nonce {
-					events["equal-nonces"] = true
-				}
-			}
-		}
-		r.Max("max_txs_in_pool", int64(len(snap.ByHash)))
-		prev = snap
 	}
+	if !q.release() {
+		return
+	}
+	events, trace := q.events, q.trace
 	if !events["sender-limit-eviction"] && !events["cache-eviction"] && !events["sweep"] {
 		r.Trivial()
 		return
@@ -427,11 +589,7 @@ func concurrentRound(r *vk.Run, c *vk.Case, partitioned bool, opsPerClient int) 
 	for _, s := range scripts {
 		total += len(s)
 	}
-	snap, ok := txkit.Quiesce(cache)
-	if !ok {
-		r.Inconclusive("asynchronous sweep did not finish")
-		return
-	}
+	snap, cleared := txkit.Quiesce(cache)
 	r.Eval(1)
 	mode := "contended"
 	if partitioned {
@@ -440,6 +598,10 @@ func concurrentRound(r *vk.Run, c *vk.Case, partitioned bool, opsPerClient int) 
 	r.Count("concurrent_rounds_"+mode, 1)
 	r.Count("concurrent_operations", total)
 	fs, hashOnly, listOnly := walk(cache, snap, partitioned)
+	if !cleared {
+		// every selection has returned and a sweep has just completed: the list of collected senders must be empty
+		fs = append(fs, finding{sweepListKey, fmt.Sprintf("%d senders are still listed for sweeping after all clients stopped and a sweep completed", snap.SweepPending)})
+	}
 	for _, s := range snap.Senders {
 		// which AddTx evicted what is not observable here: only the count limit is checked, the byte limit is counted
 		fs = append(fs, limits(s, cfg, -1)...)
@@ -484,8 +646,9 @@ func concurrentRound(r *vk.Run, c *vk.Case, partitioned bool, opsPerClient int) 
 func main() {
 	_ = logger.SetLogLevel("*:NONE")
 	r := vk.Start("C25")
-	r.Rule("sequential: per case one TxCache with small thresholds (eviction on in 2/3 of the cases), 4..8 senders, nonces 0..12, 3 gas prices, sizes 100..400 plus large ones (70..100% of the per-sender byte limit, so one always fits), random AddTx (10% duplicates) / RemoveTxByHash / SelectTransactions / NotifyAccountNonce, all invariants after every operation at quiescence; non-trivial when a per-sender eviction, a capacity eviction or a sweep happened; distinct = (config class, set of events). concurrent: 4..8 clients on one cache, partitioned rounds (own senders, no eviction/sweeps: all invariants) and contended rounds (shared senders and transactions, eviction and sweeps: list order, counters, limits), checked after the clients stopped")
-	r.Assume("quiescence = no client running and no collected sweep pending (hook holds the sweep mutex while reading)",
+	r.Rule("sequential: per case one TxCache with small thresholds (eviction on in 2/3 of the cases), 4..8 senders, nonces 0..12, 3 gas prices, sizes 100..400 plus large ones (70..100% of the per-sender byte limit, so one always fits), random AddTx (10% duplicates) / RemoveTxByHash / SelectTransactions / NotifyAccountNonce, all invariants after every operation at quiescence; a quarter of the selections have their asynchronous sweep delayed over the next removals/notifications (the harness holds the sweeping mutex), and half of the cases contain a scripted sender life cycle (initial nonce gap, 3 failed selections, collected for sweeping, all its transactions removed by hash before the delayed sweep runs, sender comes back, more selections); non-trivial when a per-sender eviction, a capacity eviction or a sweep happened; distinct = (config class, set of events). concurrent: 4..8 clients on one cache, partitioned rounds (own senders, no eviction/sweeps: all invariants) and contended rounds (shared senders and transactions, eviction and sweeps: list order, counters, limits), checked after the clients stopped")
+	r.Assume("quiescence = no client running and the pending sweep completed: the harness runs sweepSweepable synchronously through the verif hook (no waiting on the scheduler) and reads under the sweeping mutex; after a completed sweep with no selection running the list of collected senders must be empty (sweepSweepable re-initialises it at the end of every sweep)",
+		"while a sweep is delayed the harness never adds transactions: re-creating a collected sender before its sweep runs is a concurrent interleaving of the asynchronous sweep with AddTx that the code does not claim to handle",
 		"Clear() is not in the operation set",
 		"contended concurrent rounds: the code itself documents that the two indexes may diverge when additions, removals and evictions of the same sender interleave (TxCache.AddTx / RemoveTxByHash comments); the divergence is counted in the evidence, not reported",
 		"capacity eviction picks senders in Go map order inside a score bucket, so a replay may evict other senders; recorded details are self-contained",
